@@ -11,8 +11,11 @@ import sys
 p, snip = sys.argv[1], sys.argv[2]
 s = open(p).read()
 t = open(snip).read()
-i = s.rstrip().rfind('}')
-open(p, 'w').write(s[:i] + "\n" + t + "}\n")
+if t.lstrip().startswith("// MODE: append-module"):
+    open(p, 'w').write(s + "\n" + t + "\n")
+else:
+    i = s.rstrip().rfind('}')
+    open(p, 'w').write(s[:i] + "\n" + t + "}\n")
 PY
 (cd "$D" && CARGO_TARGET_DIR=/var/tmp/hd-demo-target cargo test --offline --lib --features "$FEATS" "$FILTER" 2>&1 | grep -E "^test |test result|^error" ) || true
 git -C /repo worktree remove --force "$D"
